@@ -1,7 +1,7 @@
 (* C06 — property theorems only (proofs in Proofs/Wire.v). *)
 From Coq Require Import List NArith Arith Bool.
 Import ListNotations.
-From V Require Import Model.Bytes Model.Wire Gen.GenProtocol Proofs.Wire.
+From V Require Import Model.Bytes Model.Wire Gen.GenProtocol Proofs.Wire Proofs.WireSound.
 Local Open Scope N_scope.
 
 (* Any message the sender can build decodes to exactly its fields and payload, consuming
@@ -31,20 +31,45 @@ Theorem C06_too_large_receiver : forall c acc unz stream,
 Proof. exact too_large_receiver. Qed.
 Print Assumptions C06_too_large_receiver.
 
-(* Acceptance is sound (partial): header tag/version/magic valid, declared size within the
-   limit, accepted type, exactly header+annotations+data bytes consumed, and the message
-   is [add_payload] of exactly those bytes. *)
-Theorem C06_decode_sound_partial : forall c acc unz stream m n,
+(* Conversely: the decoder accepts a byte stream only if it starts with a well-formed message:
+   a 40-byte header with the right tag, version and magic, a declared size within the limit, an
+   accepted type, followed by annotation chunks [flat cs] - each a 4-byte ASCII id, the
+   big-endian length of its value, and the value - that tile the declared annotation size
+   EXACTLY, followed by exactly the declared number of data bytes; exactly those bytes are
+   consumed, and the decoded fields are the header's fields, the data (or its decompression),
+   and the last-wins dictionary of the chunks.  ([wf_bytes]: stream elements are bytes.) *)
+Theorem C06_decode_sound : forall c acc unz stream m n,
+  wf_bytes stream = true ->
   recv_stub c acc unz stream = (Ok m, n) ->
-  exists hb payload rest,
-    stream = hb ++ payload ++ rest /\ Nlen hb = header_size /\
+  exists hb cs data rest,
+    stream = hb ++ flat cs ++ data ++ rest /\ Nlen hb = header_size /\
     let h := parse_header hb in
     h_tag h = tag_PYRO /\ h_ver h = protocol_version /\ h_magic h = magic_number /\
     h_dsize h + h_asize h <= max_size c /\ accepts acc (h_type h) /\
-    Nlen payload = h_asize h + h_dsize h /\ n = header_size + h_asize h + h_dsize h /\
-    add_payload h payload unz = Ok m.
-Proof. exact decode_sound_partial. Qed.
-Print Assumptions C06_decode_sound_partial.
+    Nlen (flat cs) = h_asize h /\ Nlen data = h_dsize h /\ Forall chunk_ok cs /\
+    n = Nlen hb + Nlen (flat cs) + Nlen data /\
+    r_anns m = dict_of cs [] /\ r_type m = h_type h /\ r_seq m = h_seq h /\ r_ser m = h_ser h /\
+    r_corr m = h_corr h /\
+    ((N.land (h_flags h) flag_compressed = 0 /\ r_data m = data /\ r_flags m = h_flags h) \/
+     (N.land (h_flags h) flag_compressed <> 0 /\ unz = Some (r_data m) /\
+      r_flags m = N.ldiff (h_flags h) flag_compressed)).
+Proof. exact decode_sound. Qed.
+Print Assumptions C06_decode_sound.
+
+(* ... so whatever it accepts re-encodes to an equivalent message: sending the decoded fields
+   again (under any size limit that admits them) succeeds, and decoding that yields a message
+   equal in type, flags, sequence number, serializer id, data and annotations, and in the
+   correlation id whenever the CORR_ID flag says one is present. *)
+Theorem C06_accepted_reencodes_equivalent : forall c acc unz stream m n,
+  wf_bytes stream = true ->
+  recv_stub c acc unz stream = (Ok m, n) ->
+  Nlen (r_data m) < 4294967296 ->
+  forall c', compression c' = false -> Nlen (r_data m) + ann_size (r_anns m) <= max_size c' ->
+  exists bs, encode c' (resend m) [] = Ok bs /\
+             recv_stub c' None None bs = (Ok (received (resend m)), Nlen bs) /\
+             equiv (received (resend m)) m.
+Proof. exact reencode_equiv. Qed.
+Print Assumptions C06_accepted_reencodes_equivalent.
 
 (* the header layout implemented by the model is the one generated from _header_format *)
 Theorem C06_header_layout :
@@ -63,3 +88,11 @@ Example C06_nonvacuous :
   | Err _ => False
   end.
 Proof. vm_compute. reflexivity. Qed.
+
+(* non-vacuity of the soundness theorems: a handcrafted stream with a duplicated annotation id is accepted *)
+Example C06_nonvacuous_sound :
+  let stream := header 4 2 0 7 2 20 zero16 ++ [65;66;67;68; 0;0;0;1; 9] ++ [65;66;67;68; 0;0;0;3; 1;2;3] ++ [5;6] ++ [42] in
+  wf_bytes stream = true /\
+  exists m, recv_stub {| max_size := 1000; compression := false |} None None stream = (Ok m, 62)
+            /\ r_anns m = [([65;66;67;68], [1;2;3])] /\ r_data m = [5;6].
+Proof. vm_compute. split; [reflexivity|]. eexists. repeat split. Qed.
